@@ -87,7 +87,7 @@ func (f *MemFile) Chmod(mode fs.FileMode) error {
 	defer nd.Unlock()
 
 	if !nd.setMode(mode, f.vfs.User()) {
-		return &fs.PathError{Op: op, Path: f.name, Err: f.vfs.err.PermDenied}
+		return &fs.PathError{Op: op, Path: f.name, Err: f.vfs.err.OpNotPermitted}
 	}
 
 	return nil
@@ -125,7 +125,8 @@ func (f *MemFile) Chown(uid, gid int) error {
 	nd.Lock()
 	defer nd.Unlock()
 
-	if !nd.checkPermission(avfs.OpenWrite, f.vfs.User()) {
+	// the rule is the one of Chown by name : being allowed to write the file is not enough.
+	if f.vfs.HasFeature(avfs.FeatIdentityMgr) && !nd.canSetOwner(uid, gid, f.vfs.User()) {
 		return &fs.PathError{Op: op, Path: f.name, Err: f.vfs.err.OpNotPermitted}
 	}
 
